@@ -58,6 +58,7 @@ def fit_to_variational_target(
     keys = tqdm(jr.split(key, steps), disable=not show_progress)
 
     for key in keys:
+        prev_params = params  # step returns the loss of the pre-update parameters
         params, opt_state, loss = step(
             params,
             static,
@@ -69,6 +70,6 @@ def fit_to_variational_target(
         losses.append(loss.item())
         keys.set_postfix({"loss": loss.item()})
         if loss.item() == min(losses):
-            best_params = params
+            best_params = prev_params
     params = best_params if return_best else params
     return eqx.combine(params, static), losses
